@@ -270,11 +270,13 @@ def run(ctx):
         doms.append((dom, text, base, sem, tok))
     # a fixed sheet with a comment at every place a comment may stand (inside compound selectors, preludes, media
     # lists, values): switching comments off must not change what anything else means
-    dense = ('@import /*i*/ "x.css" /*j*/ tv /*k*/, print;\n@namespace /*n*/ p /*m*/ "u";\n'
+    dense = ('@import /*i*/ "x.css" /*j*/ tv /*k*/, print;\n@namespace /*n*/ p /*m*/ "u";\n@namespace nq "http://only/in/not";\n@namespace unused "http://unused";\n'
              '@media tv /*a*/ , print /*b*/ { a/*c*/.b , li/*d*/:hover > em/*e*/[title] { left /*f*/ : /*g*/ 1px /*h*/ 2px ; } }\n'
              '@page /*p*/ :first { margin : 1px }\n/*top*/\np|x/*q*/#i /*r*/ + y/*u*/::after { color: red /*s*/ !important }\n'
              '@font-face /*t*/ { font-family : x }\nq/*v*/:not(/*w*/.z/*x*/) { top: 0 }\n'
-             '@media tv {}\n@media print { /*only*/ }\n@media tv { @x y; }\ne {}\n@media tv { f {} }')
+             '@media tv {}\n@media print { /*only*/ }\n@media tv { @x y; }\ne {}\n@media tv { f {} }\n'
+             'g:not(nq|k) { color: red !important; color: green !important; c\\olor: blue; COLOR: black !important; top: 1px; top: 2px }\n'
+             '@media print { h:not(nq|m) { left: 0 !important; left: 1px } }')
     try:
         dom = c03.parse(dense)
         cssutils.ser.prefs.useDefaults()
